@@ -442,6 +442,7 @@ type Contract struct {
 	Func      string
 	Extern    bool // assumed contract on a dependency
 	Trusted   bool // in-repo function whose body is not verified (listed)
+	AssumeEnsures bool
 	File      string
 	Requires  []Clause
 	Domain    []Clause // domain of the functional clauses: assumed only when proving them, never required of callers
@@ -712,6 +713,10 @@ func (S *Specs) LoadFile(path string, extern bool) error {
 			cur.NoReturn = true
 		case "trusted":
 			cur.Trusted = true
+		case "assume_ensures":
+			// the postconditions are assumptions (listed), but the body is still verified for
+			// everything else: panic freedom, frames, call-site and return assertions
+			cur.AssumeEnsures = true
 		case "params":
 			cur.Params = strings.Fields(strings.ReplaceAll(rest, ",", " "))
 		case "decreases":
